@@ -23,6 +23,7 @@ type c11Conn struct {
 	Inbound   int    `json:"inbound_stanzas"`
 	Outbound  int    `json:"outbound_stanzas"`
 	CutInside bool   `json:"cut_inside_last_stanza"`
+	EndBy     string `json:"ended_by,omitempty"`                    // "" = connection cut; stream-error = the server ends the stream with an error
 	MidAck    bool   `json:"acknowledged_then_more_sent,omitempty"` // the server acknowledges everything sent so far, the application then sends more, and the <resumed/> that follows the loss repeats that h
 }
 
@@ -60,6 +61,10 @@ func runC11(e *Engine, g G, o RunOpt) RunInfo {
 		c.Outbound = g.Range("outbound", 0, 3)
 		c.CutInside = g.Bool("cutinside")
 		c.MidAck = g.Pct("mid-ack", 30)
+		if g.Pct("ended-by-stream-error", 20) {
+			c.EndBy = "stream-error"
+			c.CutInside = false
+		}
 		sc.Conns = append(sc.Conns, c)
 	}
 	sc.Seg, sc.LatencyNs = netModes(g, e)
@@ -96,6 +101,7 @@ func runC11(e *Engine, g G, o RunOpt) RunInfo {
 			return
 		}
 		msgN := 0
+		nseBefore := map[int]int{}
 		sessPrev := 0 // client stanzas the server received on earlier connections of the current stream-managed session
 		lastAckH := 0
 		for ci, c := range sc.Conns {
@@ -286,18 +292,28 @@ func runC11(e *Engine, g G, o RunOpt) RunInfo {
 			}
 			cli := conn.Pipe.Cli
 			nd := countState(w.Events, xmpp.StateDisconnected)
-			if ci < len(sc.Conns)-1 {
+			nseBefore[ci] = countState(w.Events, xmpp.StateStreamError)
+			if ci < len(sc.Conns)-1 && c.EndBy == "" {
 				cli.CutAt = base + cut
 				cli.CutErr = io.EOF
 			}
 			if in.Len() > 0 {
 				conn.Send(in.String())
 			}
+			if ci < len(sc.Conns)-1 && c.EndBy == "stream-error" {
+				e.Yield("srv.before-error")
+				conn.Send("<stream:error><system-shutdown xmlns='" + nsStreams + "'/></stream:error></stream:stream>")
+				e.Yield("srv.closing")
+				conn.Close()
+				e.Fault("stream.error")
+			}
 			if ci == len(sc.Conns)-1 {
 				e.Sleep(5 * time.Second)
 				break
 			}
-			e.WaitUntilFor("lost", time.Minute, func() bool { return countState(w.Events, xmpp.StateDisconnected) > nd })
+			e.WaitUntilFor("lost", time.Minute, func() bool {
+				return countState(w.Events, xmpp.StateDisconnected) > nd || (c.EndBy == "stream-error" && countState(w.Events, xmpp.StateStreamError) > nseBefore[ci])
+			})
 			e.Sleep(time.Second)
 			if conn.Enabled {
 				if conn.Established == "bound" {
